@@ -56,6 +56,23 @@ pub(crate) fn vrt_check(c: bool, msg: &'static str) {
     }
 }
 
+thread_local! {
+    static SOFT_FAILS: std::cell::Cell<u32> = std::cell::Cell::new(0);
+}
+
+/// like vrt_check, but the harness continues so that one run reports every failing assertion
+#[inline(never)]
+pub(crate) fn vrt_soft_check(c: bool, msg: &'static str) {
+    if !c {
+        println!("VRT-CHECK-FAILED {}", msg);
+        SOFT_FAILS.with(|f| f.set(f.get() + 1));
+    }
+}
+
+pub(crate) fn vrt_soft_fail_count_and_reset() -> u32 {
+    SOFT_FAILS.with(|f| { let n = f.get(); f.set(0); n })
+}
+
 /// reachability witness (vacuity guard)
 #[inline(never)]
 pub(crate) fn vrt_cover(c: bool, msg: &'static str) {
@@ -129,7 +146,12 @@ fn vrt_replay_entry() {
         println!("VRT-BEGIN {}", i);
         let r = std::panic::catch_unwind(move || {
             vrt_load_values(&vals);
-            vrt_dispatch(&h)
+            vrt_soft_fail_count_and_reset();
+            let known = vrt_dispatch(&h);
+            if vrt_soft_fail_count_and_reset() > 0 {
+                panic!("VRT-SOFT-CHECKS-FAILED");
+            }
+            known
         });
         match r {
             Ok(true) => println!("VRT-END {} ok", i),
